@@ -5,6 +5,7 @@ import (
 	"fmt"
 	"os"
 	"path/filepath"
+	"regexp"
 	"sort"
 	"strings"
 )
@@ -190,22 +191,98 @@ func (p *Project) SourceFiles() map[string]string {
 		a := accs[k]
 		var b strings.Builder
 		fmt.Fprintf(&b, "package %s\n\n", PkgName(a.pkg))
+		body := a.body.String()
 		if len(a.imports) > 0 {
 			imps := make([]string, 0, len(a.imports))
 			for i := range a.imports {
 				imps = append(imps, i)
 			}
 			sort.Strings(imps)
+			var lines []string
+			lines, body = p.importStyles(k, a.pkg, imps, body)
 			b.WriteString("import (\n")
-			for _, i := range imps {
-				fmt.Fprintf(&b, "\t%q\n", i)
+			for _, l := range lines {
+				fmt.Fprintf(&b, "\t%s\n", l)
 			}
 			b.WriteString(")\n\n")
 		}
-		b.WriteString(a.body.String())
+		b.WriteString(body)
 		out[k] = b.String()
 	}
 	return out
+}
+
+// declaredNames lists the package-level type names a package declares.
+func (p *Project) declaredNames(pkg string) map[string]bool {
+	n := map[string]bool{}
+	for _, s := range p.Structs {
+		if s.Pkg == pkg {
+			n[s.Name] = true
+		}
+	}
+	for _, e := range p.Enums {
+		if e.Pkg == pkg {
+			n[e.Name] = true
+		}
+	}
+	for _, al := range p.Aliases {
+		if al.Pkg == pkg {
+			n[al.Name] = true
+		}
+	}
+	for _, c := range p.Controllers {
+		if c.Pkg == pkg {
+			n[c.Name] = true
+		}
+	}
+	return n
+}
+
+// importStyles decides, per source file, how each imported PROJECT package is imported: plainly, under a
+// custom name, or with a dot (at most one per file, and only when no declared type name would collide).
+// It returns the import lines and the body with its qualifiers rewritten.
+func (p *Project) importStyles(fileKey, pkg string, imps []string, body string) ([]string, string) {
+	lines := make([]string, 0, len(imps))
+	own := p.declaredNames(pkg)
+	dotted := map[string]bool{}
+	haveDot := false
+	for _, imp := range imps {
+		rel := strings.TrimPrefix(imp, p.ModPath()+"/")
+		if !p.ImportStyles || rel == imp || !isMdl(rel) {
+			lines = append(lines, fmt.Sprintf("%q", imp))
+			continue
+		}
+		r := Stream(p.Seed, "projgen/import-style/"+fileKey+"|"+rel, 0)
+		style := Pick(r, []string{"plain", "alias", "alias", "dot"})
+		name := PkgName(rel)
+		qual := regexp.MustCompile(`\b` + regexp.QuoteMeta(name) + `\.([A-Z])`)
+		if style == "dot" {
+			ok := !haveDot
+			for n := range p.declaredNames(rel) {
+				if own[n] || dotted[n] {
+					ok = false
+				}
+			}
+			if !ok {
+				style = "alias"
+			}
+		}
+		switch style {
+		case "alias":
+			lines = append(lines, fmt.Sprintf("im_%s %q", name, imp))
+			body = qual.ReplaceAllString(body, "im_"+name+".$1")
+		case "dot":
+			haveDot = true
+			for n := range p.declaredNames(rel) {
+				dotted[n] = true
+			}
+			lines = append(lines, fmt.Sprintf(". %q", imp))
+			body = qual.ReplaceAllString(body, "$1")
+		default:
+			lines = append(lines, fmt.Sprintf("%q", imp))
+		}
+	}
+	return lines, body
 }
 
 func securityLine(s Alt) string {
@@ -313,10 +390,10 @@ func (p *Project) renderMethod(imports map[string]bool, b *strings.Builder, c *C
 
 // ConfigOpts selects the per-run parts of the gleece configuration.
 type ConfigOpts struct {
-	Engine     string
-	RoutesOut  string // absolute
-	SpecOut    string // absolute
-	SkipDate   bool
+	Engine      string
+	RoutesOut   string // absolute
+	SpecOut     string // absolute
+	SkipDate    bool
 	PackageName string
 }
 
